@@ -5,6 +5,7 @@ Core Lean only (must link as a `lean_exe`): imports models and specs, never proo
 import Driver.Loop
 import Driver.SpecOps
 import Driver.SM4
+import Driver.SM3
 open Gmsm
 
 def dispatch (toks : List String) : String :=
@@ -13,6 +14,7 @@ def dispatch (toks : List String) : String :=
   | none =>
     match toks with
     | "sm4hist" :: rest => Driver.sm4hist rest
+    | "sm3hist" :: rest => Driver.sm3hist rest
     | _ => "bad-op"
 
 def main : IO Unit := Driver.run dispatch
